@@ -455,12 +455,14 @@ def punctuation_root(tree, **params):
     """
     terms = trees.terminals(tree)
     punct = [terminal for terminal in terms
-             if terminal.data['word'] in trees.PUNCT \
-             and len(trees.children(terminal.parent)) > 1]
+             if terminal.data['word'] in trees.PUNCT]
     for p in punct:
-        p.parent.children.remove(p)
-        tree.children.append(p)
-        p.parent = tree
+        # never move the last remaining child of a node, this would leave
+        # an empty node behind
+        if len(p.parent.children) > 1:
+            p.parent.children.remove(p)
+            tree.children.append(p)
+            p.parent = tree
     return tree
 
 
